@@ -233,6 +233,11 @@ fn sweep_case(case: u64, seed: u64, tier: Tier, out: &mut dyn Write) -> Result<(
                 return Ok(());
             }
             go!(ex, Op::Build(m.w, BuildOpts { cancel: Some(n), ..opts.clone() }));
+            // a build that answers Ok under a firing callback is a state the caller would commit: the
+            // predicates judge it before the abort
+            if ex.last_res.starts_with("ok") {
+                go!(ex, Op::Dump);
+            }
             go!(ex, Op::Abort);
             go!(ex, Op::Dump);
         }
@@ -414,6 +419,9 @@ fn mem_sweep_case(
     for n in mem_sweep_points(polls, tier) {
         go!(ex, Op::Begin);
         go!(ex, Op::Build(w, BuildOpts { cancel: Some(n), ..plan.opts.clone() }));
+        if ex.last_res.starts_with("ok") {
+            go!(ex, Op::Dump);
+        }
         go!(ex, Op::Abort);
         go!(ex, Op::Dump);
     }
